@@ -7,7 +7,7 @@ PROP_FILE = 'Props/C13.v'
 EVAL_FILES = ['Oracle/C13Oracle.v']
 CRATES = ['c13']
 MODES = ['debug', 'release']
-IMPORTS = 'Require Import V.Base.MachineInt V.Model.WireBytes V.Model.WireCodes V.Model.WireCommands V.Oracle.C13Oracle.'
+IMPORTS = 'Require Import V.Base.MachineInt V.Model.WireBytes V.Model.WireCodes V.Model.WireCommands V.Model.WireProxySeq V.Oracle.C13Oracle.'
 K1_TABLES = wire_k1.K1_TABLES
 RULE = ('every DriverProxy method (add_publication, add_exclusive_publication, remove_publication, add_subscription, remove_subscription, '
         'send_client_keepalive, add/remove_destination, add/remove_rcv_destination, add_counter, remove_counter, client_close, '
@@ -16,10 +16,13 @@ RULE = ('every DriverProxy method (add_publication, add_exclusive_publication, r
         'largest that fits the 512-byte command buffer (488 / 480 / 484 for publication / subscription / destination messages); counter '
         'keys 0..112 x labels 0..380 stratified (all 4 key residues mod 4, every pair on the 512-byte boundary and the two lengths '
         'around it; all 113 key lengths x 40 label lengths in thorough); tokens 0..600 (dense around 492). Observation = API result, records parsed from '
-        'the ring memory, records delivered by ring.read, tail, next correlation id. A case is non-trivial when the message carries a '
+        'the ring memory, records delivered by ring.read, tail, next correlation id. seq: ~85 sequences of 40..400 requests on rings of 1, 2 and 4 KiB: filling the ring without draining until requests are refused, and '
+        'with partial drains (limit 1..7) in between over several laps, always ended by draining the ring; mostly short records, 8% long ones '
+        '(beyond the ring\'s max message length) and ones beyond the command buffer; observation = every result, every drained record, tail, '
+        'head, next id. A case is non-trivial when it is a sequence or the message carries a '
         'string / key / token of >= 16 bytes or an id outside the i32 range; distinct = distinct case tuples')
 ASSUMPTIONS = [
-    'one call on a fresh ring (capacity 64 KiB): ring wrap-around, back-pressure and concurrent producers belong to C06 / C02',
+    'single calls on a fresh 64 KiB ring; sequences on 1/2/4 KiB rings used by one thread (the ring acceptance model of Model/WireProxySeq.v is single-threaded; concurrent producers, unblock and the ring\'s own guarantees belong to C06 / C07 / C02)',
     'channels and labels are C strings (no NUL; the harness uses printable ASCII), keys and tokens are arbitrary bytes',
     'the model is DriverProxy as repaired by fixes/C13-oversize-command-rejected.diff (on the unrepaired tree oversize requests panic)',
 ]
@@ -111,27 +114,107 @@ def generate(rng, tier):
     # beyond the documented counter limits too (the proxy itself has no such limit)
     for kn, ln in [(113, 0), (200, 100), (0, 500), (488, 0), (484, 0), (485, 0), (0, 484), (0, 485), (600, 600)]:
         add(kind='counter', c0=5, type=1, kk=1, kn=kn, lk=2, ln=ln)
+    cases += _sequences(rng, big)
     rng.shuffle(cases)
     return cases
 
 
-def impl_line(c):
+def _small_request(rng):
+    """a request whose record is short (16..~130 bytes), so that many fit a small ring"""
+    k = rng.choice(['remove', 'remove', 'keepalive', 'close', 'addpub', 'addsub', 'dest', 'counter', 'terminate'])
+    i64 = lambda: rng.choice([MIN64, -1, 0, 1, MAX64, rng.randrange(MIN64, MAX64 + 1)])
+    i32 = lambda: rng.choice([MIN32, -1, 0, 1, MAX32, rng.randrange(MIN32, MAX32 + 1)])
+    n = rng.choice([0, 1, 3, 8, 17, 40, 90])
+    if k == 'remove':
+        return {'kind': 'remove', 'k': rng.randrange(0, 3), 'reg': i64()}
+    if k in ('keepalive', 'close'):
+        return {'kind': k}
+    if k == 'addpub':
+        return {'kind': 'addpub', 'excl': rng.randrange(0, 2), 'stream': i32(), 'ck': rng.randrange(0, 1000), 'cn': n}
+    if k == 'addsub':
+        return {'kind': 'addsub', 'stream': i32(), 'ck': rng.randrange(0, 1000), 'cn': n}
+    if k == 'dest':
+        return {'kind': 'dest', 'k': rng.randrange(0, 4), 'reg': i64(), 'ck': rng.randrange(0, 1000), 'cn': n}
+    if k == 'counter':
+        return {'kind': 'counter', 'type': i32(), 'kk': rng.randrange(0, 1000), 'kn': rng.choice([0, 1, 5, 8, 13]), 'lk': rng.randrange(0, 1000), 'ln': n // 2}
+    return {'kind': 'terminate', 'tk': rng.randrange(0, 1000), 'tn': n}
+
+
+def _big_request(rng):
+    """records of 130..512 bytes (refused by rings whose max message length is smaller) and requests that do not fit the command buffer"""
+    n = rng.choice([104, 105, 120, 200, 232, 233, 300, 480, 488, 489, 500, 600])
+    return rng.choice([
+        {'kind': 'addpub', 'excl': 0, 'stream': 5, 'ck': rng.randrange(0, 1000), 'cn': n},
+        {'kind': 'dest', 'k': rng.randrange(0, 4), 'reg': 77, 'ck': rng.randrange(0, 1000), 'cn': n},
+        {'kind': 'counter', 'type': 3, 'kk': 1, 'kn': rng.choice([7, 112]), 'lk': 2, 'ln': min(n, 380)},
+        {'kind': 'terminate', 'tk': rng.randrange(0, 1000), 'tn': n},
+    ])
+
+
+def _aligned(c):
+    return (spec_length(c) + 8 + 7) // 8 * 8
+
+
+def _sequences(rng, big):
+    """calls on one small ring that fills up: without draining, and with partial draining in between;
+    every sequence ends with three unlimited drains (enough to empty the ring across a wrap)"""
+    out = []
+    final = [{'kind': 'drain', 'limit': 100000}] * 3
+    n_each = 60 if big else 14
+    for cap in (1024, 2048, 4096):
+        for _ in range(n_each):
+            c0 = rng.choice([MIN64, -1, 0, 100, 2**32, MAX64 - 40, MAX64, rng.randrange(MIN64, MAX64 + 1)])
+            # (a) fill without draining: keep calling until well past the capacity
+            ops, used = [], 0
+            while used < cap * 3 // 2:
+                r = _big_request(rng) if rng.random() < 0.08 else _small_request(rng)
+                ops.append(r)
+                used += _aligned(r) if spec_length(r) <= CMD_BUF else 0
+            out.append({'kind': 'seq', 'c0': c0, 'cap': cap, 'ops': ops + final})
+            # (b) partial draining in between, several laps around the ring
+            ops, used = [], 0
+            burst = rng.choice([2, 6, 20, 60])
+            while used < cap * 3:
+                if rng.random() < 1.0 / burst:
+                    ops.append({'kind': 'drain', 'limit': rng.choice([1, 1, 2, 3, 7, 100000])})
+                else:
+                    r = _big_request(rng) if rng.random() < 0.08 else _small_request(rng)
+                    ops.append(r)
+                    used += _aligned(r) if spec_length(r) <= CMD_BUF else 0
+            out.append({'kind': 'seq', 'c0': c0, 'cap': cap, 'ops': ops + final})
+    # the smallest interesting ones
+    out.append({'kind': 'seq', 'c0': 100, 'cap': 1024, 'ops': [{'kind': 'remove', 'k': 2, 'reg': 7}] * 40 + final})
+    out.append({'kind': 'seq', 'c0': 100, 'cap': 1024, 'ops': [{'kind': 'keepalive'}] * 50 + [{'kind': 'drain', 'limit': 1}, {'kind': 'close'}, {'kind': 'close'}] + final})
+    return out
+
+
+def _words(c):
+    """the request as the harness spells it, without the client's c0"""
     k = c['kind']
     if k == 'addpub':
-        return 'addpub %d %d %d %d %d' % (c['c0'], c['excl'], c['stream'], c['ck'], c['cn'])
+        return 'addpub %d %d %d %d' % (c['excl'], c['stream'], c['ck'], c['cn'])
     if k == 'addsub':
-        return 'addsub %d %d %d %d' % (c['c0'], c['stream'], c['ck'], c['cn'])
+        return 'addsub %d %d %d' % (c['stream'], c['ck'], c['cn'])
     if k == 'remove':
-        return 'remove %d %d %d' % (c['c0'], c['k'], c['reg'])
+        return 'remove %d %d' % (c['k'], c['reg'])
     if k == 'dest':
-        return 'dest %d %d %d %d %d' % (c['c0'], c['k'], c['reg'], c['ck'], c['cn'])
+        return 'dest %d %d %d %d' % (c['k'], c['reg'], c['ck'], c['cn'])
     if k == 'counter':
-        return 'counter %d %d %d %d %d %d' % (c['c0'], c['type'], c['kk'], c['kn'], c['lk'], c['ln'])
+        return 'counter %d %d %d %d %d' % (c['type'], c['kk'], c['kn'], c['lk'], c['ln'])
     if k in ('keepalive', 'close'):
-        return '%s %d' % (k, c['c0'])
+        return k
     if k == 'terminate':
-        return 'terminate %d %d %d' % (c['c0'], c['tk'], c['tn'])
+        return 'terminate %d %d' % (c['tk'], c['tn'])
+    if k == 'drain':
+        return 'drain %d' % c['limit']
     raise ValueError(c)
+
+
+def impl_line(c):
+    if c['kind'] == 'seq':
+        return 'seq %d %d %s' % (c['c0'], c['cap'], ' ; '.join(_words(o) for o in c['ops']))
+    w = _words(c).split(' ', 1)
+    return '%s %d%s' % (w[0], c['c0'], (' ' + w[1]) if len(w) > 1 else '')
 
 
 def request_term(c):
@@ -155,11 +238,21 @@ def request_term(c):
     raise ValueError(c)
 
 
+def _ops_term(c):
+    return '[' + '; '.join(('OpDrain %s' % z(o['limit'])) if o['kind'] == 'drain' else 'OpCall (%s)' % request_term(o) for o in c['ops']) + ']'
+
+
 def model_expr(c, mode):
+    if c['kind'] == 'seq':
+        return 'proxy_seq %s %s %s' % (z(c['c0']), z(c['cap']), _ops_term(c))
     return "let '(res, recs, tail, next) := proxy_call %s (%s) in (res, recs, recs, tail, next)" % (z(c['c0']), request_term(c))
 
 
 def oracle_expr(c, mode, obs):
+    if c['kind'] == 'seq':
+        if isinstance(obs, int) or obs[0] != 'tuple' or len(obs[1]) != 4:
+            return 'false'
+        return 'holds_seq %s %s %s' % (z(c['c0']), _ops_term(c), to_coq(obs[1][0]))
     if isinstance(obs, int) or obs[0] != 'tuple' or len(obs[1]) != 5:
         return 'false'
     res, raw, rd, tail, _next = obs[1]
@@ -182,12 +275,24 @@ def spec_length(c):
 
 
 def nontrivial(c):
+    if c['kind'] == 'seq':
+        return True
     ints = [v for kk, v in c.items() if isinstance(v, int) and kk in ('c0', 'reg', 'stream', 'type')]
     return any(c.get(kk, 0) >= 16 for kk in ('cn', 'kn', 'ln', 'tn')) or any(not (MIN32 <= v <= MAX32) for v in ints)
 
 
 def shrink(c):
     out = []
+    if c['kind'] == 'seq':
+        ops = c['ops']
+        tail_drains = [{'kind': 'drain', 'limit': 100000}] * 3
+        body = ops[:-3] if len(ops) >= 3 else ops
+        for i in range(len(body)):          # drop one operation (the three final drains stay)
+            out.append(dict(c, ops=body[:i] + body[i + 1:] + tail_drains))
+        if len(body) > 1:
+            out.append(dict(c, ops=body[:len(body) // 2] + tail_drains))
+            out.append(dict(c, ops=body[len(body) // 2:] + tail_drains))
+        return out
     for kk, v in c.items():
         if not isinstance(v, int) or kk in ('excl', 'k'):
             continue
